@@ -33,7 +33,7 @@ func c10Scenario(name string, strip bool, minNodes int, world string) *h.Scenari
 			n2 := hh.W.AddNode(a, sim.NodeOpt{Age: 19 * Q, TaintAge: dp(1 * Q), Annotation: ann("keep")})
 			hh.W.AddPod(podOn(g, n2.Name, 200))
 			hh.W.AddNode(a, sim.NodeOpt{Age: 18 * Q, TaintAge: dp(3 * Q)})
-			hh.W.AddNode(a, sim.NodeOpt{Age: 17 * Q, TaintAge: dp(3 * Q), Annotation: ann("keep")})
+			hh.W.AddNode(a, sim.NodeOpt{Age: 17 * Q, TaintAge: dp(3 * Q), Annotation: ann("false")})
 			hh.W.AddNode(a, sim.NodeOpt{Age: 16 * Q})
 		case "fresh":
 			n1 := hh.W.AddNode(a, sim.NodeOpt{Age: 20 * Q})
@@ -52,11 +52,11 @@ func c10Scenario(name string, strip bool, minNodes int, world string) *h.Scenari
 			}
 		}
 	}
-	names := initialNames(g.ASG.Name, 5)
+	names := initialNames(g.ASG.Name, 4)
 	s.Events = func(hh *h.Hist, slot int) []h.Event {
 		var ev []h.Event
 		for _, n := range names {
-			for _, v := range []string{"x", "", "<remove>"} {
+			for _, v := range []string{"x", "false", "", "<remove>"} {
 				e := evAnnotate(n, v)
 				if strip {
 					e.Apply = func(*h.Hist) {}
@@ -147,6 +147,10 @@ func C10Scenarios(tier string) []*h.Scenario {
 		s := c10Scenario("c10."+world+".faults", false, 1, world)
 		s.MaxEventsPerSlot = 1
 		s.Prune = true
+		s.BoundCap = 1
+		if tier == "thorough" {
+			s.BoundCap = 2
+		}
 		s.FaultOps = map[string]bool{sim.OpK8sGet: true, sim.OpK8sUpdate: true, sim.OpK8sDelete: true, sim.OpTerminate: true, sim.OpListPods: true, sim.OpListNodes: true}
 		out = append(out, s)
 	}
@@ -171,6 +175,6 @@ func init() {
 		},
 		Nontrivial:  seenKeys,
 		Assumptions: commonAssumptions,
-		Alphabet:    []string{"annotate(i, x | empty | remove)", "pod-start/finish(i)", "ext-taint(i, now-3q | now-5q)", "force-taint(i)", "burst", "clear-pending", "clear-pods", "restart", "fail at k8s get/update/delete, terminate, listers (safety scenarios)"},
+		Alphabet:    []string{"annotate(i, x | false | empty | remove)", "pod-start/finish(i)", "ext-taint(i, now-3q | now-5q)", "force-taint(i)", "burst", "clear-pending", "clear-pods", "restart", "fail at k8s get/update/delete, terminate, listers (safety scenarios)"},
 	})
 }
